@@ -500,13 +500,13 @@ func TestC06_Exhaustive2(t *testing.T) {
 	nshards, _ := strconv.Atoi(getenv("VERIF_NSHARDS", "1"))
 	shard, _ := strconv.Atoi(getenv("VERIF_SHARD", "0"))
 	scenarios := exhaustiveScenarios
-	if !tierThorough() {
-		scenarios = scenarios[:1]
-	}
 	p := prop[schedCase]{property: "C06", check: checkSched, classify: classifySched}
 	p.enumerate(t, func(yield func(schedCase) bool) {
 		idx := 0
-		for _, base := range scenarios {
+		for si, base := range scenarios {
+			// quick tier: the first scenario with every yield, the others with the yields in front of file-system / lock /
+			// registry statements only; thorough tier: every yield of every scenario
+			onlyInteresting := si > 0 && !tierThorough()
 			for first := range base.Tests { // which task runs first is part of the schedule
 				sc := base
 				sc.Order = []int{first}
@@ -516,6 +516,9 @@ func TestC06_Exhaustive2(t *testing.T) {
 				for g, sites := range dry.sess.Sites {
 					// a little beyond the dry-run length: preempted runs can be longer
 					for k := 1; k <= len(sites)+3; k++ {
+						if onlyInteresting && (k > len(sites) || !siteInteresting(sites[k-1])) {
+							continue
+						}
 						all = append(all, pos{g, k})
 					}
 				}
